@@ -2,6 +2,8 @@
 // and loaded from source with gengo's own loader (go/types view).
 package fixt
 
+import "time"
+
 import "verif/harness/internal/fixt2"
 
 // A is a plain struct.
@@ -81,3 +83,9 @@ type Chain struct {
 	N    int
 	Next *Chain
 }
+
+// PA is a NAMED pointer type: its name denotes it, not the pointer literal *A.
+type PA *A
+
+// (fixt refers to a std package with a one-element import path, for Gen[time.Duration])
+var _ time.Duration
